@@ -16,14 +16,16 @@ func init() {
 	register(&Property{
 		ID:        "C17",
 		Title:     "Route sync converges for Felix's routes and leaves other routes alone",
-		Technique: "static analysis: cut-set guard analysis (ownership filters), nil-error-edge analysis of deltatracker Iter closures, failure-path analysis up to the returned error, value provenance of map-delete keys (mirror maps), reset-on-every-cycle analysis of retried dumps (go/ssa over felix/routetable)",
+		Technique: "static analysis: cut-set guard analysis (ownership filters), nil-error-edge analysis of deltatracker Iter closures, failure-path analysis up to the returned error, value provenance of map-delete keys (mirror maps), reset-on-every-cycle analysis of retried dumps, must-follow (path) analysis of claimant-index mutations with caller lifting, explicit path search with phi resolution and nil-facts for nil returns vs. deferred-work emptiness tests (go/ssa over felix/routetable)",
 		DesignRef: "DESIGN.md §3 C17",
 		Explanation: "Decides structural clauses of the property on RouteTable: (own) a route read from the kernel is recorded in the tracker's dataplane view (and hence becomes deletable) only under routeIsOurs on that same route, routeIsOurs returns true only under OwnershipPolicy.RouteIsOurs, and the exported mutators change desired routes only under OwnershipPolicy.IfaceIsOurs(ifaceName); " +
 			"(iteraction) every closure handed to kernelRoutes.PendingUpdates()/PendingDeletions().Iter returns IterActionUpdateDataplane only on the nil-error edge of its netlink call; " +
 			"(errreport) on the error edge the failure is recorded (error map or interface rescan) on every path, and every error map makes applyUpdates return a non-nil error, so Apply never reports success while a route write failed; " +
 			"(ifmirror) the interface caches ifaceNameToIndex and the index-keyed maps updated together with it are kept as mirrors: entries of an index-keyed map are removed only under the index cached under the interface's name (never under a caller-supplied index), and removing a name removes its cached index from every index-keyed map, the index being read before the name is dropped; " +
-			"(dumpretry) every collection the callback of a retried kernel route dump fills (seen-route sets) is reset on every CFG cycle that re-issues the dump, in the full and in the per-interface resync.",
-		NotDecided: "Conflict resolution by route class (the arg-min over map iteration in recalculateDesiredKernelRoute) and the convergence arithmetic of the delta tracker; the heuristics inside MainTableOwnershipPolicy.RouteIsOurs; interface-state bookkeeping beyond the mirror-map removal discipline (e.g. that the renumbering branch of OnIfaceStateChanged leaves ifaceIndexToState[old index] behind; which state transitions trigger a rescan).",
+			"(dumpretry) every collection the callback of a retried kernel route dump fills (seen-route sets) is reset on every CFG cycle that re-issues the dump, in the full and in the per-interface resync; " +
+			"(recalc) every change of who claims a route key in the claimant index cidrToIfaces (per-key store/delete in a per-class map, Add/Discard/Clear on a claimant set read from or stored into it) is followed on every path to a return by a call of the one function that writes kernelRoutes.Desired() (recalculateDesiredKernelRoute) for that same key, in the mutating function or, for an unexported helper keyed by a parameter, in every caller; " +
+			"(pending) the set fields that applyUpdates' Iter closures add to on the error edge of a route write instead of recording the error (derived: ifacesToRescan) are tested empty (or cleared) after the last attempt on every path on which an exported entry point reaching applyUpdates (Apply) returns a possibly-nil error.",
+		NotDecided: "That changes of the per-interface targets (ifaceToRoutes) and of the interface index/state caches are followed by a recalculation of the affected keys (SetRoutes does it in a second loop over the new targets, RouteRemove relies on removeOwningIface finding the key: not a post-dominance fact); whether the emptiness test of the deferred-work set in a loop is fresh beyond 'evaluated in a block reachable from the attempt'.  Conflict resolution by route class (the arg-min over map iteration in recalculateDesiredKernelRoute) and the convergence arithmetic of the delta tracker; the heuristics inside MainTableOwnershipPolicy.RouteIsOurs; interface-state bookkeeping beyond the mirror-map removal discipline (e.g. that the renumbering branch of OnIfaceStateChanged leaves ifaceIndexToState[old index] behind; which state transitions trigger a rescan).",
 		Assumptions: []string{
 			"go/types + go/ssa (x/tools v0.50.0) model of the current source, CGO_ENABLED=0 build",
 			"deltatracker.Pending*View.Iter applies IterActionUpdateDataplane as documented; package-level Err* variables are non-nil",
@@ -53,6 +55,18 @@ func init() {
 				Old: "\t\t\tseenKeys.Clear()\n", New: "", Expect: "C17.dumpretry/RouteTable.doFullResync/RouteListFilteredIter"},
 			{Name: "update errors logged but not returned", File: "felix/routetable/route_table.go",
 				Old: "\t\t\t\"Encountered some errors when trying to update routes.  Will retry.\")\n\t\terr = ErrUpdateFailed\n", New: "\t\t\t\"Encountered some errors when trying to update routes.  Will retry.\")\n", Expect: "C17.errreport/RouteTable.applyUpdates/returned"},
+			{Name: "withdrawing a claimant re-runs conflict resolution only when it was the last one", File: "felix/routetable/route_table.go",
+				Old: "\tif ifaceNames.Len() == 0 {\n\t\tdelete(r.cidrToIfaces[class], routeKey)\n\t}\n\tr.recalculateDesiredKernelRoute(routeKey)\n",
+				New: "\tif ifaceNames.Len() == 0 {\n\t\tdelete(r.cidrToIfaces[class], routeKey)\n\t\tr.recalculateDesiredKernelRoute(routeKey)\n\t}\n", Expect: "C17.recalc/RouteTable.removeOwningIface/set-Discard"},
+			{Name: "a further claimant of an already claimed CIDR never gets to win", File: "felix/routetable/route_table.go",
+				Old: "\t\tr.cidrToIfaces[class][routeKey] = ifaceNames\n\t}\n\tifaceNames.Add(ifaceName)\n\tr.recalculateDesiredKernelRoute(routeKey)\n",
+				New: "\t\tr.cidrToIfaces[class][routeKey] = ifaceNames\n\t\tifaceNames.Add(ifaceName)\n\t\tr.recalculateDesiredKernelRoute(routeKey)\n\t\treturn\n\t}\n\tifaceNames.Add(ifaceName)\n", Expect: "C17.recalc/RouteTable.addOwningIface/set-Add"},
+			{Name: "Apply no longer insists on an empty rescan queue", File: "felix/routetable/route_table.go",
+				Old: "\tif r.ifacesToRescan.Len() > 0 {\n\t\t// Make sure the dataplane reschedules us.\n\t\treturn fmt.Errorf(\"some interfaces flapped during route update: %s\", r.ifacesToRescan.String())\n\t}\n\treturn err\n",
+				New: "\treturn err\n", Expect: "C17.pending/RouteTable.Apply/ifacesToRescan"},
+			{Name: "rescan queue only looked at when the retry failed anyway", File: "felix/routetable/route_table.go",
+				Old: "\tif r.ifacesToRescan.Len() > 0 {\n\t\t// Make sure the dataplane reschedules us.\n",
+				New: "\tif err != nil && r.ifacesToRescan.Len() > 0 {\n\t\t// Make sure the dataplane reschedules us.\n", Expect: "C17.pending/RouteTable.Apply/ifacesToRescan"},
 		},
 	})
 }
@@ -64,12 +78,17 @@ func runC17(c *Ctx) {
 	c.Rule("C17.dumpretry", "E-ORDER", "every collection filled by the callback of a retried kernel route dump is reset on every retry edge (each CFG cycle through the dump call passes a reset)", 2)
 	c.Rule("C17.errreport", "E-ERR", "on the error edge of a route write the failure is recorded on every path, and every record makes applyUpdates return non-nil", 5)
 
+	c.Rule("C17.recalc", "E-PAIR", "every change of who claims a route key in the claimant index (cidrToIfaces: per-key store/delete, Add/Discard on a claimant set) is followed on every path by a recalculation of the desired kernel route of that key", 4)
+	c.Rule("C17.pending", "E-GUARD", "an exported entry point that (transitively) runs the route writes returns a nil error only behind a test that every deferred-work set filled by swallowed write errors (ifacesToRescan) is empty, evaluated after the last attempt", 1)
+
 	p := c.Load(c17RTPkg)
 	sites, _ := c17CheckIterAction(c, p, "C17.iteraction", c17RTPkg)
 	c17Own(c, p)
 	c17ErrReport(c, p, sites)
 	c17IfMirror(c, p)
 	c17DumpRetry(c, p)
+	c17Recalc(c, p)
+	c17Pending(c, p, sites)
 }
 
 func c17Own(c *Ctx, p *Prog) {
